@@ -12,6 +12,7 @@
   * the model's `step` is total — every lookup is an `Option` match, there is no panic constructor; the "does not
     panic" half of the property therefore rests on the correspondence check (`catch_unwind` around every scenario).
 -/
+import Cobweb.Proofs.Dead
 import Cobweb.Proofs.Boot
 import Cobweb.Proofs.CtlStep
 import Cobweb.Proofs.Counts
@@ -21,6 +22,12 @@ namespace Cobweb.C18
 
 /-- The events a state transformer appended to the trace (newest first). -/
 def emitted (s s' : St) : List Ev := s'.trace.take (s'.trace.length - s.trace.length)
+
+/-- **A stale reference stays stale** (every execution): an entity id that has been allocated and is dead is dead in every
+    later state — ids come from a counter that never decreases, nothing is resurrected (`Proofs/Dead.lean`). Together with
+    `dead_target_aborts` / `no_run_for_dead_target`: once its target is gone, a reference can never again run anything. -/
+theorem stale_reference_stays_stale {p : Prog} {h : Hist} {s s' : St} (hr : Reach p h s s') (x : Nat) (hx : x < s.nextEnt)
+    (hd : s.alive x = false) : s'.alive x = false := dead_stays_dead hr x hx hd
 
 /-- If the target entity is dead when the command is reached, the runner emits `abortNoEntity`, changes no callback,
     counter or queue, and pushes only the abort frames (setup, cleanup, gc, poll): nothing runs. -/
